@@ -160,7 +160,10 @@ def analyse_program(facts, rounds=8, param_fns=None):
                     for s in b['stmts']:
                         if s['s'].get('k') == 'CtorInit' and s['s'].get('field'):
                             eng.fn = fn; eng.record = False; eng.record_stores = False; eng.local_inits = {}
-                            v = eng.ev(s['s'].get('init'), st0) if s['s'].get('init') else None
+                            ini = s['s'].get('init')
+                            if ini and strip(ini).get('k') == 'MemberExpr' and strip(ini).get('n') == s['s']['field']:
+                                continue      # copy constructor: same field of another object
+                            v = eng.ev(ini, st0) if ini else None
                             if v is not None:
                                 stores[s['s']['field']].append(v)
                 eng.run(fn, record=False, record_stores=True)
